@@ -477,7 +477,10 @@ class Lemma:
     ghost code with use_lemma(name, *args): its requires become obligations, its ensures is assumed."""
 
     def __init__(self, name, params, requires=(), ensures=(), induction=None, spec_defs=None, spec_recs=(), prop='',
-                 file='(lemma)', proof=None, uses=()):
+                 file='(lemma)', proof=None, uses=(), ufs=()):
+        # ufs: uninterpreted functions the lemma talks about, as (name, [argument types], result type); the same names denote
+        # the same symbols in the contracts that use the lemma
+        self.ufs = list(ufs)
         # proof: ghost code run after the requires are assumed (use_lemma / prove steps); uses: the lemmas it may use
         self.proof, self.uses = proof, list(uses)
         self.name, self.params, self.requires, self.ensures = name, params, list(requires), list(ensures)
@@ -487,6 +490,12 @@ class Lemma:
 
     def _env(self, eng, vals):
         g = Env(None, {})
+        for name, arg_tys, res_ty in self.ufs:
+            f = eng.uf(name, arg_tys, res_ty)
+
+            def call(e, *args, _f=f, _a=arg_tys, _r=res_ty):
+                return wrap(_r, _f(*[to_z3(x, t) for x, t in zip(args, _a)]))
+            g.vars[name] = Builtin(call, name)
         for sn, ssrc in self.spec_defs.items():
             g.vars[sn] = eng.eval_spec(ssrc, g)
         define_recs(eng, self.spec_recs, g)
